@@ -1317,18 +1317,13 @@ end NonVacuity
    * `Encoding::encode`: modelled (`Model.OneShot.encode` / `encodeV` / `encodeLoop`, capacity arithmetic
      included) and PROVED equal to the reference for every stop policy under which the model returns
      (section (f)).
+   * termination of `Encoding::encode` (formerly `encode_terminates_partial`) and the length precondition
+     that excludes its `panic` outcome: PROVED in `Thm/C11EncTerm.lean` (`encodeV_terminates`,
+     `encodeV_panic_length`, `encodeV_total`; precondition `204 * len + 142 ≤ usize::MAX`, fuel `≥ len + 2`,
+     every admissible stop policy, every slack).
 
    Still partial:
 
-   * `encode_terminates_partial` (not a theorem): that the loop of `encode` returns (does not exhaust the
-     fuel of the model) is NOT proved for any policy; `encodeV_eq_stream` etc. are partial-correctness
-     statements.  The argument would be: an `OutputFull` round of `encode_from_utf8` either wrote a numeric
-     character reference (consumed at least one character) or was entered with fewer than `NCR_EXTRA` spare
-     bytes and is followed by a `reserve_exact` that leaves at least `NCR_EXTRA + max…(rest)`; the driver
-     runs the model with fuel `10 * len + 16` on every generated input and would print `diverges`.
-   * the `.unwrap()` / `next_power_of_two` overflow behaviour of `encode` is modelled (`panic`) but no
-     length precondition excluding it is proved (the encoder formulas would need a bound like
-     `variantQuery_le`).
    * `String::with_capacity` / `reserve` / `Vec::reserve_exact` are modelled by their documented contract
      ("at least"), their own panics (capacity above `isize::MAX`, allocation failure) are outside the model. -/
 
